@@ -64,4 +64,72 @@ theorem na_dtype_holds_na_value (c d : DClass)
   rw [na_dtype_refines] at h
   cases c <;> simp at h <;> subst h <;> simp [na_value_refines, naOfClass]
 
+/-! ### `is_na`, `drop_na`, `tolist`, `equal` -/
+
+/-- the elementwise test `is_na` applies. -/
+inductive NaTest where
+  | isnat | isnan | eqEmpty | isNone
+  deriving Repr, DecidableEq
+
+def decodeTest : Out → Option NaTest
+  | .ret [] (.app "np.isnat" [.sym "self"]) => some .isnat
+  | .ret [] (.app "np.isnan" [.sym "self"]) => some .isnan
+  | .ret [] (.app "Eq" [.sym "self", .sym "dtypes.string.na_object"]) => some .eqEmpty
+  | .ret [] (.app ".fast" [.sym "self", .sym "[x is None for x in self]", .sym "bool"]) => some .isNone
+  | _ => none
+
+/-- which missing value a test recognises. -/
+def NaTest.recognises : NaTest → NaVal
+  | .isnat => .nat | .isnan => .nan | .eqEmpty => .emptyStr | .isNone => .pyNone
+
+/-- `Vector.is_na` as written: NaT test for date / datetime / timedelta, NaN test for float, comparison with
+    the blank string for *both* string dtypes (StringDType and fixed-width `<U`), `is None` otherwise. -/
+theorem is_na_refines (c : DClass) :
+    decodeTest (Vector_is_na (dtypeTruth c)) = some (match c with
+      | .date | .datetime | .timedelta => .isnat
+      | .float => .isnan
+      | .str | .ustr => .eqEmpty
+      | _ => .isNone) := by
+  cases c <;> simp [Vector_is_na, dtypeTruth, decodeTest]
+
+/-- **is_na flags exactly the vector's own missing value**: for every dtype class that can hold its missing
+    value (all but int / bool / bytes, whose `na_dtype` is another class), the test `is_na` applies recognises
+    precisely `na_value` — the two decision chains are coherent. -/
+theorem is_na_recognises_na_value (c : DClass) (t : NaTest)
+    (hself : decodeDtype c (Vector_na_dtype (dtypeTruth c)) = some c)
+    (ht : decodeTest (Vector_is_na (dtypeTruth c)) = some t) :
+    decodeNa (Vector_na_value (dtypeTruth c)) = some t.recognises := by
+  rw [na_dtype_refines] at hself
+  rw [is_na_refines] at ht
+  cases c <;> simp at hself ht <;> subst ht <;> simp [na_value_refines, naOfClass, NaTest.recognises]
+
+/-- `drop_na` keeps exactly the positions `is_na` does not flag, in order, as a copy. -/
+theorem drop_na_normal_form (truth : Term → Bool) :
+    Vector_drop_na truth = Out.ret [] (Term.app ".copy"
+      [Term.app "getitem" [Term.sym "self", Term.app "~" [Term.app ".is_na" [Term.sym "self"]]]]) := rfl
+
+/-- `tolist` puts None exactly where `is_na` flags. -/
+theorem tolist_normal_form (truth : Term → Bool) :
+    Vector_tolist truth = Out.ret [] (Term.app "np.where(self.is_na(), None, self).tolist" []) := rfl
+
+/-- `equal` as written: False unless the other is a Vector of the same length with the same kind of missing
+    value; otherwise "same missing positions and equal values at the non-missing positions" — missing values
+    equal each other and nothing else, which makes it an equivalence (`C10.equal_is_equivalence`). -/
+theorem equal_normal_form (truth : Term → Bool) (n m : Int) :
+    Vector_equal truth n m =
+      if truth (Term.app "isinstance" [Term.sym "other", Term.sym "Vector"]) && decide (n = m) &&
+         truth (Term.app "Eq" [Term.app "str" [Term.app ".na_value" [Term.sym "self"]],
+                               Term.app "str" [Term.app ".na_value" [Term.sym "other"]]])
+      then Out.ret [] (Term.app "And"
+        [Term.app "np.all" [Term.app "Eq" [Term.app ".is_na" [Term.sym "self"], Term.app ".is_na" [Term.sym "other"]]],
+         Term.app "np.all" [Term.app "Eq"
+           [Term.app "getitem" [Term.sym "self", Term.app "~" [Term.app ".is_na" [Term.sym "self"]]],
+            Term.app "getitem" [Term.sym "other", Term.app "~" [Term.app ".is_na" [Term.sym "other"]]]]]])
+      else Out.ret [] (Term.sym "False") := by
+  unfold Vector_equal
+  cases truth (Term.app "isinstance" [Term.sym "other", Term.sym "Vector"]) <;>
+    by_cases h : n = m <;>
+    cases truth (Term.app "Eq" [Term.app "str" [Term.app ".na_value" [Term.sym "self"]],
+                               Term.app "str" [Term.app ".na_value" [Term.sym "other"]]]) <;> simp [h]
+
 end DI.Tie.C10
